@@ -190,4 +190,198 @@ theorem addProperty_nodata_abs {pa pa' : PA} {name ctype : String} {dflt : Optio
           List.getElem?_replicate, if_pos hk]
         rfl
 
+theorem addProperty_nodata_isSome (pa : PA) (name ctype : String) (dflt : Option Int)
+    (stride : Nat) : ∃ pa', pa.addProperty name ctype dflt none stride = some pa' := by
+  unfold PA.addProperty
+  extract_lets n sizeOk dv pa1 noData d nElem pa2 nreal pa3
+  have h1 : sizeOk = true := rfl
+  have h2 : noData = true := rfl
+  simp only [h1, h2, Bool.not_true, Bool.false_eq_true, if_false, if_true]
+  split <;> split <;> exact ⟨_, rfl⟩
+
+theorem absPA_dflt_keys (pa : PA) : recKeys (absPA pa).dflt = pa.props.map Col.name :=
+  defaultParticle_keys pa
+
+theorem lookupD_absPA_dflt {pa : PA} (nm : String) (hm : nm ∈ pa.props.map Col.name) :
+    lookupD (absPA pa).dflt nm [] = List.replicate (pa.strideOf nm) (pa.defaultOf nm) :=
+  lookupD_defaultParticle nm hm
+
+/-! ### ensure_properties -/
+
+theorem ensure_refines {pa src : PA} (h : Inv pa) (hs : Inv src) (props : Option (List String))
+    (hnames : ∀ nm ∈ (match props with
+        | some [] => src.props.map Col.name
+        | some ps => ps
+        | none => src.props.map Col.name), nm ∈ src.props.map Col.name) :
+    ∃ pa', pa.ensureProperties src props = some pa' ∧
+      absPA pa' = specEnsure props (absPA pa) (absPA src) := by
+  rw [ensureProperties_eq]
+  have hsn : (match props with
+        | some [] => recKeys (absPA src).dflt
+        | some ps => ps
+        | none => recKeys (absPA src).dflt) = (match props with
+        | some [] => src.props.map Col.name
+        | some ps => ps
+        | none => src.props.map Col.name) := by
+    rw [absPA_dflt_keys]
+  unfold specEnsure
+  simp only []
+  rw [hsn]
+  generalize (match props with
+        | some [] => src.props.map Col.name
+        | some ps => ps
+        | none => src.props.map Col.name) = names at hnames ⊢
+  obtain ⟨r, hr, hq⟩ := foldl_opt_exists (ensureStep src)
+    (fun pre a => Inv a ∧ absPA a = pre.foldl (specEnsureStep (absPA src)) (absPA pa)) names
+    (fun pre b suf a hl hq => by
+      obtain ⟨hia, habs⟩ := hq
+      have hb : b ∈ src.props.map Col.name := hnames b (by rw [hl]; simp)
+      rw [List.foldl_append, List.foldl_cons, List.foldl_nil, ← habs]
+      unfold ensureStep specEnsureStep
+      simp only []
+      by_cases hp : a.hasProp b = true
+      · rw [if_pos hp, if_pos (by
+          rw [absPA_dflt_keys]; simpa using (hasProp_iff a b).mp hp)]
+        exact ⟨a, rfl, hia, rfl⟩
+      · have hnm : b ∉ a.props.map Col.name := fun hm => hp ((hasProp_iff a b).mpr hm)
+        rw [if_neg hp, if_neg (by rw [absPA_dflt_keys]; simpa using hnm)]
+        obtain ⟨sc, hsc⟩ := col?_isSome_of_mem src b hb
+        rw [hsc]
+        simp only []
+        obtain ⟨hscm, hscn⟩ := col?_some src b sc hsc
+        have h1 : 1 ≤ src.strideOf b := by rw [← hscn]; exact (hs.len sc hscm).1
+        obtain ⟨a', ha'⟩ := addProperty_nodata_isSome a b sc.ctype (some (src.defaultOf b))
+          (src.strideOf b)
+        obtain ⟨hi', _, _, _, _, habs'⟩ := addProperty_nodata_abs hia h1 (fun hm => absurd hm hnm)
+          (fun e => absurd (e ▸ hia.toF.tagMem) hnm) ha'
+        refine ⟨a', ha', hi', ?_⟩
+        rw [habs']
+        have hst : addStride a b (src.strideOf b) = src.strideOf b := by
+          unfold addStride; rw [if_neg hp]
+        simp only [hp, Bool.false_eq_true, if_false, hst, addDv]
+        rw [lookupD_absPA_dflt b hb,
+          setKey_new _ _ _ (by
+            have := absPA_dflt_keys a
+            unfold recKeys at this
+            rw [this]; exact hnm)])
+    pa ⟨h, rfl⟩
+  exact ⟨r, hr, hq.2⟩
+
+/-! ### empty_clone -/
+
+theorem particles_of_n_zero (pa : PA) (h : pa.n = 0) : particles pa = [] := by
+  unfold particles; rw [h]; rfl
+
+theorem emptyClone_spec {pa : PA} (h : Inv pa) (props : Option (List String))
+    (hnames : ∀ nm ∈ cloneNames pa props, nm ∈ pa.props.map Col.name) :
+    ∃ d, pa.emptyClone props = some d ∧ Inv d ∧ d.n = 0 ∧
+      absPA d = specEmptyClone props (absPA pa) ∧
+      ∀ nm ∈ cloneNames pa props, d.hasProp nm = true ∧ d.strideOf nm = pa.strideOf nm := by
+  rw [emptyClone_eq]
+  have hall : (cloneNames pa props).all pa.hasProp = true := by
+    rw [List.all_eq_true]
+    intro nm hnm
+    exact (hasProp_iff pa nm).mpr (hnames nm hnm)
+  rw [hall]
+  simp only [Bool.not_true, Bool.false_eq_true, if_false]
+  have hstart : Inv ({ PA.empty "" with consts := pa.consts } : PA) :=
+    InvF.toInv (pa := { PA.empty "" with consts := pa.consts }) (inv_empty "").toF
+  obtain ⟨r, hr, hq⟩ := foldl_opt_exists (cloneStep pa)
+    (fun pre a => Inv a ∧ a.n = 0 ∧
+      (absPA a).dflt = pre.foldl (specCloneStep (absPA pa)) baseDflt ∧
+      (∀ x, a.strideOf x = 1 ∨ a.strideOf x = pa.strideOf x) ∧
+      (∀ nm ∈ pre, nm ∈ a.props.map Col.name ∧ a.strideOf nm = pa.strideOf nm))
+    (cloneNames pa props)
+    (fun pre b suf a hl hq => by
+      obtain ⟨hia, hn0, habs, hstr, hpre⟩ := hq
+      have hb : b ∈ pa.props.map Col.name := hnames b (by rw [hl]; simp)
+      obtain ⟨c, hc⟩ := col?_isSome_of_mem pa b hb
+      obtain ⟨hcm, hcn⟩ := col?_some pa b c hc
+      have h1 : 1 ≤ pa.strideOf b := by rw [← hcn]; exact (h.len c hcm).1
+      unfold cloneStep
+      simp only [hc]
+      obtain ⟨a', ha'⟩ := addProperty_nodata_isSome a b c.ctype (some (pa.defaultOf b))
+        (pa.strideOf b)
+      obtain ⟨hi', hn', hso, hsn, hnm', habs'⟩ := addProperty_nodata_abs hia h1
+        (fun _ => Or.inr (Or.inr hn0)) (fun e => by rw [e]; exact h.tagStride) ha'
+      have hst : addStride a b (pa.strideOf b) = pa.strideOf b := by
+        unfold addStride
+        split
+        · split
+          · rename_i h1'
+            rcases hstr b with e | e
+            · rw [e, h1']
+            · exact e
+          · rfl
+        · rfl
+      refine ⟨a', ha', hi', by rw [hn', hn0], ?_, ?_, ?_⟩
+      · rw [List.foldl_append, List.foldl_cons, List.foldl_nil, ← habs, habs']
+        simp only [hst, addDv]
+        unfold specCloneStep
+        rw [lookupD_absPA_dflt b hb]
+      · intro x
+        by_cases hx : x = b
+        · rw [hx, hsn, hst]; exact Or.inr rfl
+        · rw [hso x hx]; exact hstr x
+      · intro nm hnm
+        have hsub : ∀ y ∈ a.props.map Col.name, y ∈ a'.props.map Col.name := by
+          intro y hy; rw [hnm']; split
+          · exact hy
+          · exact List.mem_append_left _ hy
+        rcases List.mem_append.mp hnm with e | e
+        · obtain ⟨e1, e2⟩ := hpre nm e
+          refine ⟨hsub nm e1, ?_⟩
+          by_cases hx : nm = b
+          · rw [hx, hsn, hst]
+          · rw [hso nm hx]; exact e2
+        · have : nm = b := by simpa using e
+          subst this
+          refine ⟨?_, by rw [hsn, hst]⟩
+          rw [hnm']; split
+          · rename_i hp; exact (hasProp_iff a nm).mp hp
+          · simp)
+    _ ⟨hstart, rfl, rfl, fun x => Or.inl rfl, fun nm hnm => by simp at hnm⟩
+  rw [hr]
+  simp only []
+  obtain ⟨hir, hn0, habs, _, hpre⟩ := hq
+  have hcong : ∀ (nm : String) (outs : List String),
+      absPA ({ r with name := nm, outputs := outs } : PA) = absPA r :=
+    fun nm outs => absPA_congr_fields rfl rfl rfl
+  refine ⟨_, rfl, InvF.toInv (pa := { r with name := _, outputs := _ }) hir.toF, hn0, ?_, ?_⟩
+  · rw [hcong]
+    unfold specEmptyClone
+    simp only []
+    have hk : (match props with
+        | some ps => ps
+        | none => recKeys (absPA pa).dflt) = cloneNames pa props := by
+      unfold cloneNames
+      cases props with
+      | none => exact absPA_dflt_keys pa
+      | some ps => rfl
+    rw [hk, ← habs]
+    show (⟨defaultParticle r, particles r⟩ : RA) = _
+    rw [particles_of_n_zero r hn0]
+    rfl
+  · intro nm hnm
+    obtain ⟨e1, e2⟩ := hpre nm hnm
+    exact ⟨(hasProp_iff r nm).mpr e1, e2⟩
+
+/-- `extract_particles(idx, props)` into a fresh clone -/
+theorem extract_refines {pa : PA} (h : Inv pa) (idx : List Nat) (al : Bool)
+    (props : Option (List String))
+    (hnames : ∀ nm ∈ cloneNames pa props, nm ∈ pa.props.map Col.name)
+    (hin : ∀ i ∈ idx, i < pa.n) :
+    ∃ pa', pa.extract idx al props = some pa' ∧
+      (absPA pa').equiv (specExtractInto (cloneNames pa props) idx (absPA pa)
+        (specEmptyClone props (absPA pa))) := by
+  obtain ⟨d, hd, hid, _, habs, hdn⟩ := emptyClone_spec h props hnames
+  unfold PA.extract
+  rw [hd]
+  simp only []
+  obtain ⟨pa', hr⟩ := extractInto_isSome pa d idx al props
+    (Or.inr (fun nm hnm => ⟨(hasProp_iff pa nm).mpr (hnames nm hnm), (hdn nm hnm).1⟩))
+  refine ⟨pa', hr, ?_⟩
+  rw [← habs]
+  exact extractInto_refines h hid idx al props (fun nm hnm => ((hdn nm hnm).2).symm) hin hr
+
 end PysphVerif.PArray
